@@ -54,7 +54,29 @@ def replay_calc(case):
             out.append(dict(what='Derive with respect to the parameter', got=got_b, want=case['db']))
         if not close(got_x, case['dx'], rel=1e-9):
             out.append(dict(what='Derive with respect to the variable', got=got_x, want=case['dx']))
-        return dict(mismatches=out, n=2)
+        # a history: the SAME Derive object is evaluated alone, then embedded in a larger formula that brings parameters
+        # and variables whose names sort before and after its own, then given to an estimation object next to other
+        # formulas: it always denotes the derivative with respect to the element it NAMES
+        import biogeme.biogeme as bio
+
+        bb = ex.Beta('b', float(case['b']), None, None, 0)
+        fx = case['a'] * bb * bb + case['c'] * bb * ex.Variable('x') + case['d'] * ex.Variable('x')
+        dx_obj = ex.Derive(fx, 'x')
+        db_obj = ex.Derive(fx, 'b')
+        first = (float(dx_obj.get_value_c(database=d, prepare_ids=True)[0]), float(db_obj.get_value_c(database=d, prepare_ids=True)[0]))
+        a0 = ex.Beta('a0', 2.0, None, None, 0)
+        zz = ex.Beta('zz', 3.0, None, None, 0)
+        bigger = a0 * dx_obj + zz * db_obj + ex.Variable('z')
+        got_big = float(bigger.get_value_c(database=d, prepare_ids=True)[0])
+        want_big = 2.0 * case['dx'] + 3.0 * case['db'] + 5.0
+        sim = bio.BIOGEME(d, {'first': a0 + zz, 'dx': dx_obj, 'db': db_obj}).simulate({'a0': 2.0, 'zz': 3.0, 'b': float(case['b'])})
+        if not close(first[0], case['dx'], rel=1e-9) or not close(first[1], case['db'], rel=1e-9):
+            out.append(dict(what='Derive object evaluated alone', got=list(first), want=[case['dx'], case['db']]))
+        if not close(got_big, want_big, rel=1e-9):
+            out.append(dict(what='the same Derive objects embedded in a larger formula', got=got_big, want=want_big))
+        if not close(float(sim['dx'][0]), case['dx'], rel=1e-9) or not close(float(sim['db'][0]), case['db'], rel=1e-9):
+            out.append(dict(what='the same Derive objects simulated next to other formulas', got=[float(sim['dx'][0]), float(sim['db'][0])], want=[case['dx'], case['db']]))
+        return dict(mismatches=out, n=5)
     om = ex.RandomVariable('omega')
     p = case['p']
     poly = p[0] + p[1] * om + p[2] * om * om + p[3] * om * om * om + p[4] * om * om * om * om
